@@ -31,6 +31,7 @@ type c07Op struct {
 type c07Env struct {
 	N, Z int
 	A    []int
+	Big  []int
 }
 
 func (c07Env) Boom(i int) int    { panic("boom") }
@@ -77,6 +78,8 @@ func c07Ops() []c07Op {
 		{name: "loopCallB", prog: mustC(`map(A, {Scale(#)})`, expr.Env(c07Env{}), noopt), env: se(7, 1)},
 		{name: "nestedLoopCallFails", prog: mustC(`map(A, {count(A, {Scale(#) % Z > 0})})`, expr.Env(c07Env{}), noopt), env: se(3, 0)},
 		{name: "nestedLoopCall", prog: mustC(`map(A, {count(A, {Scale(#) > 2})})`, expr.Env(c07Env{}), noopt), env: se(2, 1)},
+		{name: "deepStackOverBudget", prog: mustC(`filter(Big, {true})`, expr.Env(c07Env{}), noopt), env: c07Env{N: 1, Z: 1, A: []int{1}, Big: make([]int, 1500)}},
+		{name: "deepStackNoAllocation", prog: mustC(`count(Big, {true}) + len(Big)`, expr.Env(c07Env{}), noopt), env: c07Env{N: 1, Z: 1, A: []int{1}, Big: make([]int, 3000)}},
 		{name: "budget5", budget: 5},
 		{name: "budget10", budget: 10},
 	}
